@@ -462,6 +462,53 @@ fn seq_limit_dims(_tier: &str) -> Vec<u32> {
     vec![fe_cfgs(), 8]
 }
 
+/// C06: a quiet, stable path traced long enough for the sequence to restart (an initial
+/// sequence close to the maximum, or the Dublin/IPv6 regime that restarts every 512 numbers):
+/// what the tracer has learnt about the target's distance outlives the restart.
+fn g_stable_wrap(t: &mut Tape) -> Scenario {
+    let mut sc = g_quiet(t);
+    let ms = 1_000_000u64;
+    sc.tracer.initial_seq = 64_511 - t.draw(300) as u16;
+    sc.tracer.rounds = 120 + t.draw(120);
+    sc.tracer.max_round_ns = sc.tracer.max_round_ns.min(30 * ms);
+    sc.tracer.min_round_ns = sc.tracer.min_round_ns.min(sc.tracer.max_round_ns);
+    sc.tracer.grace_ns = sc.tracer.grace_ns.min(2 * ms);
+    sc.tracer.read_timeout_ns = sc.tracer.read_timeout_ns.min(ms);
+    sc
+}
+
+/// C16: an accepted configuration keeps running: more than a thousand one-probe rounds from
+/// the largest initial sequence the builder accepts, in every executable configuration and
+/// address family (whatever is counted per round gets past 65535 on the way).
+fn g_many_rounds(t: &mut Tape) -> Scenario {
+    use crate::scenario::TargetBehaviour;
+    let mut sc = fault_enum_base(t.draw(fe_cfgs()));
+    sc.tracer.initial_seq = 64_511;
+    sc.tracer.first_ttl = 1;
+    sc.tracer.max_ttl = 1;
+    sc.tracer.rounds = 1_040 + t.draw(2) * 30;
+    sc.tracer.min_round_ns = 0;
+    sc.tracer.max_round_ns = 50_000;
+    sc.tracer.grace_ns = 0;
+    sc.tracer.read_timeout_ns = 10_000;
+    sc.tracer.tcp_connect_timeout_ns = 200_000;
+    sc.net.target.behaviour = TargetBehaviour::Silent;
+    for path in &mut sc.net.paths {
+        for r in &mut path.routers {
+            r.silent = true;
+        }
+    }
+    sc.faults.tick_base_ns = 1_000;
+    sc.light = true;
+    sc.stable = false;
+    sc.epoch_liveness = false;
+    sc
+}
+
+fn many_rounds_dims(_tier: &str) -> Vec<u32> {
+    vec![fe_cfgs(), 2]
+}
+
 /// C05: the state is cleared in the middle of a trace with many short rounds; the figures
 /// that follow are those of the rounds since the clear, under the configured limits (a
 /// sample limit of 1 or 2 in half of the runs, and never equal to the flow limit).
@@ -636,6 +683,24 @@ fn g_ext(t: &mut Tape) -> Scenario {
     if t.chance(800) {
         sc.tracer.ext_enabled = true;
     }
+    sc
+}
+
+/// C14: several rounds over paths on which the router answering for a ttl changes (equal-cost
+/// paths, a route change), so that a hop's latest response carries other objects than an
+/// earlier one, or none: what the hop shows is what its latest response carried.
+fn g_ext_rounds(t: &mut Tape) -> Scenario {
+    let mut p = Profile::base();
+    p.ext_heavy = true;
+    p.ecmp_heavy = t.chance(500);
+    p.late = false;
+    p.stalls = false;
+    p.target_kinds = false;
+    p.max_rounds = 8;
+    p.max_path = 12;
+    let mut sc = gen_scenario(t, &p);
+    sc.tracer.rounds = sc.tracer.rounds.max(3);
+    sc.tracer.ext_enabled = true;
     sc
 }
 
@@ -1258,6 +1323,7 @@ pub fn registry() -> Vec<PropertyCheck> {
             rule: "seeded scenarios on lossless networks where every hop answers once per probe in every quoting policy / RFC 4884 layout / TOS-TTL-checksum rewrite, long rounds sweeping the issuable sequence range per configuration cell (thorough: every sequence from 0 to the wrap in every cell), plus foreign quotations derived from genuine ones by changing exactly one identity field; non-trivial/distinct as for C01",
             families: vec![
                 Family { name: "lossless", gen: g_lossless, oracle: oracle::c02, opts: opts_light(), quick_runs: 120_000, thorough_runs: 4_000_000, must_reach: &["reach.extension_emitted", "fault.tos_rewrite"], enum_dims: None },
+                Family { name: "socket-faults", gen: g_sockfaults, oracle: oracle::c02, opts: opts_light(), quick_runs: 40_000, thorough_runs: 1_500_000, must_reach: &[], enum_dims: None },
                 Family { name: "foreign", gen: g_foreign, oracle: oracle::c02, opts: opts_light(), quick_runs: 80_000, thorough_runs: 3_000_000, must_reach: &["handed.Foreign"], enum_dims: None },
                 Family { name: "unprivileged-paris-dublin", gen: g_unpriv_multipath, oracle: oracle::c02, opts: opts_light(), quick_runs: 5_000, thorough_runs: 100_000, must_reach: &[], enum_dims: None },
                 Family { name: "sequence-sweep", gen: g_sweep_sample, oracle: oracle::c02, opts: opts_light(), quick_runs: 1_500, thorough_runs: 20_000, must_reach: &[], enum_dims: None },
@@ -1324,6 +1390,7 @@ pub fn registry() -> Vec<PropertyCheck> {
             rule: "extension-emitting routers and targets in the simulated network: every RFC 4884 length the quotation policies produce (compliant and legacy 128-octet forms), 0..n objects of arbitrary class/size, MPLS stacks with arbitrary label/EXP/S/TTL, both parse modes, IPv4 and IPv6; the reported extensions must equal the encoded list and the probe must still be recognised; non-trivial/distinct as for C01",
             families: vec![
                 Family { name: "extensions", gen: g_ext, oracle: oracle::c14, opts: opts_light(), quick_runs: 150_000, thorough_runs: 5_000_000, must_reach: &["reach.extension_emitted", "reach.ext_quotation_ge_256_octets"], enum_dims: None },
+                Family { name: "extensions-across-rounds", gen: g_ext_rounds, oracle: oracle::c14, opts: opts_full(), quick_runs: 30_000, thorough_runs: 1_000_000, must_reach: &["reach.extension_emitted"], enum_dims: None },
                 Family { name: "swarm", gen: g_base, oracle: oracle::c14, opts: opts_light(), quick_runs: 50_000, thorough_runs: 2_000_000, must_reach: &[], enum_dims: None },
             ],
             assumptions: vec![ASSUME_SIM, "an ICMP error without RFC 4884 length whose quotation exceeds 128 octets is ambiguous under RFC 4884 section 5; identity is asserted for such messages, extension equality is not"],
@@ -1345,6 +1412,7 @@ pub fn registry() -> Vec<PropertyCheck> {
             level: "exploration",
             rule: "builder path: every combination the Builder API admits (any protocol x strategy x port direction x privilege, ttl and in-flight limits 0..255, packet sizes 0..65535, sequences 0..65535, zero sample/flow limits, min > max durations) is built and, when accepted, run for up to three rounds over benign and faulty simulated networks; it must be rejected before any socket call or run without panicking; non-trivial/distinct as for C01",
             families: vec![
+                Family { name: "many-rounds", gen: g_many_rounds, oracle: oracle::c16, opts: opts_light(), quick_runs: 0, thorough_runs: 0, must_reach: &[], enum_dims: Some(many_rounds_dims) },
                 Family { name: "builder-combinations", gen: g_builder, oracle: oracle::c16, opts: opts_light(), quick_runs: 200_000, thorough_runs: 8_000_000, must_reach: &["end.rejected", "end.ok"], enum_dims: None },
             ],
             assumptions: vec![ASSUME_SIM, "the command-line half of C16 (option precedence, CLI validation) is decided by tuisim's configuration pipeline, not here"],
@@ -1365,6 +1433,7 @@ pub fn registry() -> Vec<PropertyCheck> {
             rule: "seeded scenarios over all first/max ttl, max-inflight, path lengths and arrival orders; online send-discipline monitor over the interleaved sequence of wire records and hand-overs; non-trivial/distinct as for C01",
             families: vec![
                 Family { name: "swarm", gen: g_base, oracle: oracle::c06, opts: opts_light(), quick_runs: 200_000, thorough_runs: 8_000_000, must_reach: &["reach.probe_reached_target"], enum_dims: None },
+                Family { name: "stable-wrap", gen: g_stable_wrap, oracle: oracle::c06, opts: opts_light(), quick_runs: 3_000, thorough_runs: 100_000, must_reach: &[], enum_dims: None },
                 Family { name: "long-runs", gen: g_long, oracle: oracle::c06, opts: opts_light(), quick_runs: 6_000, thorough_runs: 300_000, must_reach: &[], enum_dims: None },
                 Family { name: "socket-faults", gen: g_sockfaults, oracle: oracle::c06, opts: opts_light(), quick_runs: 50_000, thorough_runs: 1_500_000, must_reach: &[], enum_dims: None },
             ],
